@@ -54,6 +54,8 @@ def single_gate(kind, npins, connected, with_fork_ports=False):
 
 
 def small_circuits():
+    for x in special_circuits():
+        yield x
     for kind in KIND_LIST:
         n = GATE_KINDS[kind]
         for r in range(n + 1):
@@ -86,8 +88,63 @@ def small_circuits():
         yield c, ('chain', k1, k2)
 
 
+def special_circuits():
+    """hand-picked shapes that random generation reaches rarely"""
+    # flip-flop used through its inverted output only (Q unconnected), toggling
+    c = Circuit('qn_only')
+    a, o, ff = Node(c, 'a', 'input'), Node(c, 'o', 'output'), Node(c, 'ff', 'DFF')
+    c.io_nodes.append(a); c.io_nodes.append(o)
+    fq = Node(c, 'fq')
+    Line(c, (ff, 1), fq)
+    g = Node(c, 'g', 'XOR2')
+    Line(c, a, (g, 0)); Line(c, fq, (g, 1))
+    fg = Node(c, 'fg')
+    Line(c, g, fg)
+    Line(c, fg, o); Line(c, fg, (ff, 0))
+    yield c, ('special', 'dff-qn-only')
+    # latch with data and enable pins, enable wired to a port
+    c = Circuit('latch_en')
+    d, en, o = Node(c, 'd', 'input'), Node(c, 'en', 'input'), Node(c, 'o', 'output')
+    for n in (d, en, o):
+        c.io_nodes.append(n)
+    g = Node(c, 'g', 'INV1')
+    Line(c, d, g)
+    lt = Node(c, 'lt', 'LATCH')
+    Line(c, g, (lt, 0)); Line(c, en, (lt, 1))          # enable pin driven directly by the port node
+    g2 = Node(c, 'g2', 'BUF1')
+    Line(c, (lt, 0), (g2, 0))
+    Line(c, g2, o)
+    yield c, ('special', 'latch-enable-from-port')
+    # fork chains three deep: stem read by a gate, deep branch read by a later gate and captured by an output
+    for depth in (2, 3, 4):
+        c = Circuit(f'chain{depth}')
+        a, b, o, o2 = Node(c, 'a', 'input'), Node(c, 'b', 'input'), Node(c, 'o', 'output'), Node(c, 'o2', 'output')
+        for n in (a, b, o, o2):
+            c.io_nodes.append(n)
+        g0 = Node(c, 'g0', 'NAND2')
+        Line(c, a, (g0, 0)); Line(c, b, (g0, 1))
+        f = Node(c, 's0')
+        Line(c, g0, f)
+        forks = [f]
+        for k in range(depth - 1):
+            f2 = Node(c, f's{k+1}')
+            Line(c, forks[-1], f2)
+            forks.append(f2)
+        g1 = Node(c, 'g1', 'INV1')
+        Line(c, forks[0], g1)
+        g2 = Node(c, 'g2', 'BUF1')
+        Line(c, g1, g2)
+        g3 = Node(c, 'g3', 'BUF1')
+        Line(c, g2, g3)
+        g4 = Node(c, 'g4', 'XOR2')
+        Line(c, g3, (g4, 0)); Line(c, forks[-1], (g4, 1))
+        Line(c, g4, o)
+        Line(c, forks[-1], o2)
+        yield c, ('special', f'fork-chain-{depth}')
+
+
 def random_circuit(rng, n_gates=8, n_in=3, n_ff=1, n_latch=0, p_unconn=0.1, p_direct=0.3, p_dangling=0.1, kinds=None,
-                   p_arity_gap=0.0):
+                   p_arity_gap=0.0, p_chain=0.25):
     """p_arity_gap: probability that the *trailing* pin(s) of a gate whose kind carries a digit are left unconnected
     (the case in which 'arity by name' and 'arity by highest connected pin' differ)"""
     kinds = kinds or KIND_LIST
@@ -97,31 +154,52 @@ def random_circuit(rng, n_gates=8, n_in=3, n_ff=1, n_latch=0, p_unconn=0.1, p_di
     def fork_source(f):
         return lambda: f
 
+    def add_source(f):
+        """register fork f as a signal; sometimes extend it by a chain of further forks (f -> f' -> f'')"""
+        sources.append(fork_source(f))
+        depth = 0
+        while rng.random() < p_chain and depth < 3:
+            f2 = Node(c, f'{f.name}_c{depth}')
+            Line(c, f, f2)
+            sources.append(fork_source(f2))
+            f = f2
+            depth += 1
+
     ports = []
     for i in range(n_in):
         n = Node(c, f'in{i}', 'input')
         ports.append(n)
         f = Node(c, f'in{i}_f')
         Line(c, n, f)
-        sources.append(fork_source(f))
+        add_source(f)
+    input_forks = list(sources)
     ffs = []
     for i in range(n_ff):
         kind = rng.choice(['DFF', 'dffx1', 'SDFFARX1'])
         n = Node(c, f'ff{i}', kind)
         ffs.append(n)
-        f = Node(c, f'ff{i}_q')
-        Line(c, (n, 0), f)
-        sources.append(fork_source(f))
-        if rng.random() < 0.6:
+        qn_only = rng.random() < 0.25
+        if not qn_only:
+            f = Node(c, f'ff{i}_q')
+            Line(c, (n, 0), f)
+            add_source(f)
+        if qn_only or rng.random() < 0.6:
             f2 = Node(c, f'ff{i}_qn')
             Line(c, (n, 1), f2)
-            sources.append(fork_source(f2))
+            add_source(f2)
     for i in range(n_latch):
         n = Node(c, f'lt{i}', 'LATCH')
         ffs.append(n)
         f = Node(c, f'lt{i}_q')
         Line(c, (n, 0), f)
-        sources.append(fork_source(f))
+        add_source(f)
+        r = rng.random()
+        if r < 0.4:       # enable pin wired to a port signal through its fork
+            Line(c, input_forks[rng.randrange(len(input_forks))](), (n, 1))
+        elif r < 0.8:     # enable pin driven directly by a dedicated port node
+            en = Node(c, f'lt{i}_en', 'input')
+            ports.append(en)
+            Line(c, en, (n, 1))
     pending_direct = []    # gates whose single output is still free for a direct connection
     gate_forks = []
     for g in range(n_gates):
@@ -147,7 +225,7 @@ def random_circuit(rng, n_gates=8, n_in=3, n_ff=1, n_latch=0, p_unconn=0.1, p_di
         else:
             f = Node(c, f'g{g}_o')
             Line(c, node, f)
-            sources.append(fork_source(f))
+            add_source(f)
             gate_forks.append(f)
     # outputs
     outs = []
